@@ -345,3 +345,43 @@ Example c17_rate_limit_nonvacuous :
                 cf_seg_prefix := true; cf_rl_ceil := true |} in
   rl_run cfg None 0 [0; jsecond; jsecond; jsecond; 3 * jsecond - 1; jsecond] = [false; false; true; true; true; false].
 Proof. vm_compute. reflexivity. Qed.
+
+(** The cookie names. The rate limiter's counter lives in the browser under cookie.LoginCount, and the login handler writes
+    the login cookie right after it in the SAME response: were the two names equal the browser would keep the second and the
+    counter would never come back. [main_cnames] transliterates the package variables of pkg/cookie, ConfigureCookieNamesWithPrefix
+    and the lines of cmd/wonderwall/main.go that call it (compared with the real variables on every run, `wwh cookies` kind
+    cnames); it computes [cookie_name], the naming function every handler model uses ... *)
+Theorem c17_names_as_configured_by_main : forall cfg k, cname_of (main_cnames cfg) k = cookie_name cfg k.
+Proof. exact main_cnames_spec. Qed.
+Print Assumptions c17_names_as_configured_by_main.
+
+(** ... and for every prefix, every mode and every sso.session-cookie-name (other than wonderwall's own two fixed names) the
+    counter's name differs from the name of every other cookie: all names are pairwise distinct. *)
+Theorem c17_cookie_names_pairwise_distinct : forall cfg k1 k2,
+  (cf_sso_server cfg = true ->
+   cf_sso_name cfg <> with_prefix default_prefix n_logincount /\ cf_sso_name cfg <> n_legacy) ->
+  k1 <> k2 -> cookie_name cfg k1 <> cookie_name cfg k2.
+Proof. exact names_distinct_all. Qed.
+Print Assumptions c17_cookie_names_pairwise_distinct.
+
+(** What that excludes: a ConfigureCookieNamesWithPrefix that re-prefixes the counter with the login cookie's suffix gives
+    both the same name as soon as a prefix is configured or SSO mode is on (never with the default configuration). *)
+Theorem c17_counter_named_like_login_refuted : forall cfg,
+  cf_sso_server cfg = true \/ cf_prefix cfg <> default_prefix ->
+  nm_logincount (main_cnames_with configure_cnames_slip cfg) = nm_login (main_cnames_with configure_cnames_slip cfg).
+Proof. exact slip_names_collide. Qed.
+Print Assumptions c17_counter_named_like_login_refuted.
+
+Example c17_cookie_names_nonvacuous :
+  let cfg := fun pre sso nm => {| cf_secure := true; cf_samesite := b "Lax"; cf_prefix := pre; cf_ingresses := [b "https://h.example.com"];
+                         cf_sso_server := sso; cf_sso_domain := b "example.com"; cf_sso_name := nm; cf_legacy := false;
+                         cf_rl_enabled := true; cf_rl_logins := 1; cf_rl_window := 1;
+                         cf_seg_prefix := true; cf_rl_ceil := true |} in
+  main_cnames (cfg (b "io.nais.wonderwall") false []) = default_cnames /\
+  nm_logincount (main_cnames (cfg (b "my.app") false [])) = b "io.nais.wonderwall.logincount" /\
+  nm_login (main_cnames (cfg (b "my.app") false [])) = b "my.app.callback" /\
+  nm_session (main_cnames (cfg (b "my.app") true (b "sso-session"))) = b "sso-session" /\
+  nm_retry (main_cnames (cfg (b "my.app") true (b "sso-session"))) = b "sso-session.retry" /\
+  nm_logincount (main_cnames_with configure_cnames_slip (cfg (b "my.app") false [])) = b "my.app.callback" /\
+  main_cnames_with configure_cnames_slip (cfg (b "io.nais.wonderwall") false []) = default_cnames.
+Proof. vm_compute. repeat split; reflexivity. Qed.
